@@ -12,7 +12,7 @@ var rootPool = [][]string{
 	{"cdc", "cdc2"}, {"cdc_a", "cdcxa", "other"}, {"c%c", "cxxc"}, {"cdc", "x/cdc", "x/cdc2"}, {"a", "ab", "abc"}, {"cdc", "other"}, {"r_1", "r11", "r%"},
 }
 var taskPool = []string{"t1", "t10", "t1x", "t_1", "t%", "tx1", "a"}
-var collPool = []int64{1, 10, 100, 7}
+var collPool = []int64{1, 10, 100, 7, -1, -10} // -1 is how collection id 0 is stored, -10 is model.ReplicateCollectionID
 var chanPool = []string{"ch1", "ch10", "ch2"}
 var fails = []string{"FNone", "FNone", "FGet", "FTxn", "FDelInfo", "FDelPos", "FCommitBefore", "FCommitAfter"}
 
@@ -59,6 +59,12 @@ func corpus() [][]*label {
 			&label{kind: "UpdPos", r: "cdc", t: "t1", c: 1, cname: "c1", ch: "ch1", p: pi(9, 7), op: pi(9, 8)},
 			&label{kind: "UpdPos", r: "cdc", t: "t1", c: 1, cname: "c1", ch: "ch2", p: pi(9, 9)},
 			&label{kind: "DelPos", r: "cdc", t: "t1"}, &label{kind: "GetPos", r: "cdc"}},
+		// the reserved negative collection ids next to ordinary ones
+		{&label{kind: "PutInfo", r: "cdc", info: info("t1", 1, "")}, &label{kind: "PutPos", r: "cdc", pos: pos("t1", 100, map[string]*pinfo{"ch1": pi(5, 1)})},
+			&label{kind: "UpdPos", r: "cdc", t: "t1", c: -10, cname: "c-10", ch: "rpc-ch", p: pi(6, 2)},
+			&label{kind: "UpdPos", r: "cdc", t: "t1", c: 0, cname: "c0", ch: "ch1", p: pi(7, 3)},
+			&label{kind: "GetPos", r: "cdc", t: "t1", c: -10}, &label{kind: "GetPos", r: "cdc", t: "t1", c: -1},
+			&label{kind: "DelPos", r: "cdc", t: "t1", c: -1}, &label{kind: "GetPos", r: "cdc", t: "t1"}, &label{kind: "DelPos", r: "cdc", t: "t1", c: -10}, &label{kind: "GetPos", r: "cdc", t: "t1"}},
 		// deleting a task with a failure at each store call
 		{&label{kind: "PutInfo", r: "cdc", info: info("t1", 2, "")}, &label{kind: "PutPos", r: "cdc", pos: pos("t1", 1, map[string]*pinfo{"ch1": pi(5, 1)})},
 			&label{kind: "PutPos", r: "cdc", pos: pos("t1", 10, map[string]*pinfo{"ch1": pi(5, 1)})}, &label{kind: "PutInfo", r: "cdc", info: info("t10", 2, "")},
